@@ -122,6 +122,7 @@ class Ref:
         self.spec = spec
         self.leaky = leaky_consequent
         self.mu = mu or rm.mu
+        self.disabled_counts = True  # a disabled rule selected by First/Last/Highest/Lowest occupies one of the n slots
         self.in_by = {v["name"]: v for v in spec["inputs"]}
         self.out_by = {v["name"]: v for v in spec["outputs"]}
 
@@ -210,7 +211,8 @@ class Ref:
                 tr.note(abs(d) if d != 0.0 else INF, "first/last zero")
                 if k < int(act["rules"]) and d > 0.0 and d >= t:
                     fire(i)
-                    k += 1
+                    if self.disabled_counts or rules[i].get("enabled", True):
+                        k += 1
             return degs, trig
         if cls in ("Highest", "Lowest", "Proportional"):
             cand = []
@@ -232,6 +234,8 @@ class Ref:
             for a, b in zip(srt, srt[1:]):
                 if degs[a] != degs[b]:
                     tr.note(abs(degs[a] - degs[b]), "highest/lowest order")
+            if not self.disabled_counts:
+                srt = [i for i in srt if rules[i].get("enabled", True)]
             for i in srt[: max(0, int(act["rules"]))]:
                 fire(i)
             return degs, trig
